@@ -42,7 +42,7 @@ PAULI_FOR_BELL = {0: [], 1: ["x"], 2: ["x", "z"], 3: ["z"]}   # correction turni
 
 
 def cases(ctx):
-    rng = ctx.rng
+    rng = ctx.erng      # every random decision below shapes the enumeration that mine(k) splits over the shards
     k = 0
     for n in (1, 2, 3, 4):
         tuples = list(itertools.product(range(4), repeat=n))
@@ -62,7 +62,8 @@ def cases(ctx):
                                 continue  # post_routine is documented for sequential=True only; on NV the combination is not staged
                             if var.endswith("_retry") and (others > 0 and hw == "nv"):
                                 continue  # NV + retry + a qubit on ID 0: relocation inside the retry loop (C09's known finding)
-                            if ctx.quick and n == 2 and rng.random() < 0.5:
+                            skip = rng.random() < 0.5
+                            if ctx.quick and n == 2 and skip:
                                 continue
                             k += 1
                             if ctx.mine(k):
@@ -71,13 +72,15 @@ def cases(ctx):
                             if not var.endswith("_retry") and "rsp" not in var:
                                 # the link layer hands its responses over as qlink-interface 1.0 objects (own Bell-state enum)
                                 k += 1
-                                if ctx.mine(k) and (not ctx.quick or n == 1 or rng.random() < 0.3):
+                                take = rng.random() < 0.3      # (drawn in every shard, whoever owns k: the streams stay in step)
+                                if ctx.mine(k) and (not ctx.quick or n == 1 or take):
                                     yield {"kind": "keep", "variant": var, "bells": list(bells), "hardware": hw,
                                            "others": others, "expect_phi_plus": expect, "qlink10": True}
                             if hw == "generic" and not var.endswith("_seq") and "post" not in var and "seq" not in var:
                                 # a unit module with exactly as many qubits as the request needs (n = 1: a single-qubit node)
                                 k += 1
-                                if ctx.mine(k) and (not ctx.quick or n == 1 or rng.random() < 0.3):
+                                take = rng.random() < 0.3
+                                if ctx.mine(k) and (not ctx.quick or n == 1 or take):
                                     yield {"kind": "keep", "variant": var, "bells": list(bells), "hardware": hw,
                                            "others": others, "expect_phi_plus": expect, "tight": True}
     for basis in ("X", "Y", "Z", "MX", "MY", "MZ"):
